@@ -704,13 +704,27 @@ Section Contain.
     intros s s' ps [_ H] Hp p Hin. destruct (Hp p Hin) as (rel & -> & Hok). eauto.
   Qed.
 
+  Lemma rm_each_cons : forall s p ps, rm_each s (p :: ps) =
+    match rm_dir_or_file s p with
+    | ROk del => rm_each (rm_trees s del) ps
+    | RErr e => (s, Some e)
+    end.
+  Proof. reflexivity. Qed.
+
+  Lemma rm_targets_cons : forall s p ps, rm_targets s (p :: ps) =
+    match rm_dir_and_target s p with
+    | ROk del => rm_targets (rm_trees s del) ps
+    | RErr e => (s, Some e)
+    end.
+  Proof. reflexivity. Qed.
+
   Lemma rm_each_Post : forall ps s s' e, Inv s -> paths_ok s ps -> rm_each s ps = (s', e) -> Post s s'.
   Proof.
-    induction ps as [|p ps IH]; intros s s' e HI Hp H; cbn [rm_each] in H.
-    - inversion H; subst. apply Post_refl. exact HI.
-    - destruct (Hp p (or_introl eq_refl)) as (rel & -> & Hok).
-      destruct (rm_dir_or_file s (run ++ rel)) as [del|er] eqn:E.
-      + pose proof (rm_dir_or_file_roots _ _ _ HI Hok E) as Hr.
+    induction ps as [|p ps IH]; intros s s' e HI Hp.
+    - intros H. inversion H; subst. apply Post_refl. exact HI.
+    - destruct (Hp p (or_introl eq_refl)) as (rel & Ep & Hok). rewrite rm_each_cons.
+      destruct (rm_dir_or_file s p) as [del|er] eqn:E; intros H.
+      + rewrite Ep in E. pose proof (rm_dir_or_file_roots _ _ _ HI Hok E) as Hr.
         pose proof (Post_roots _ _ HI Hr) as P1.
         eapply Post_trans; [exact P1|]. eapply IH; [apply P1| |exact H].
         eapply paths_ok_Post; [exact P1|]. intros q Hq. apply Hp. right. exact Hq.
@@ -721,14 +735,377 @@ Section Contain.
     (forall d, In d ds -> anc_ok s run stds d /\ (d = [] \/ mem_path (run ++ d) stds = true)) ->
     rm_targets s (map (fun d => run ++ d) ds) = (s', e) -> Post s s'.
   Proof.
-    induction ds as [|d ds IH]; intros s s' e HI Hd H; cbn [rm_targets map] in H.
-    - inversion H; subst. apply Post_refl. exact HI.
-    - destruct (Hd d (or_introl eq_refl)) as [Hok Hm].
-      destruct (rm_dir_and_target s (run ++ d)) as [del|er] eqn:E.
+    induction ds as [|d ds IH]; intros s s' e HI Hd.
+    - intros H. inversion H; subst. apply Post_refl. exact HI.
+    - destruct (Hd d (or_introl eq_refl)) as [Hok Hm]. cbn [map]. rewrite rm_targets_cons.
+      destruct (rm_dir_and_target s (run ++ d)) as [del|er] eqn:E; intros H.
       + pose proof (rm_dir_and_target_roots _ _ _ HI Hok Hm E) as Hr.
         pose proof (Post_roots _ _ HI Hr) as P1.
         eapply Post_trans; [exact P1|]. eapply IH; [apply P1| |exact H].
         intros d' Hd'. destruct (Hd d' (or_intror Hd')) as [A B]. split; [apply P1; exact A|exact B].
       + inversion H; subst. apply Post_refl. exact HI.
   Qed.
+
+  (* ---- _clean_using_glob ---- *)
+  Variable keys : list path.     (* the standard symlink dirs relative to the run dir *)
+  Hypothesis stds_def : stds = map (fun d => run ++ d) keys.
+  (* get_symlink_dirs returns every std dir that is a symlink, so the symlinks among the
+     strict ancestors of a std dir (which are std dirs or the run dir) are standard ones *)
+  Hypothesis keys_anc : forall d, In d keys -> anc_ok s0 run stds d.
+
+  Lemma mem_path_In : forall p l, mem_path p l = true <-> In p l.
+  Proof. intros. unfold mem_path. apply mem_In. apply path_eqb_eq. Qed.
+
+  Lemma keys_anc_Inv : forall s d, Inv s -> In d keys -> anc_ok s run stds d.
+  Proof.
+    intros s d (D & -> & He & H0 & _) Hd. apply anc_ok_restrict; auto.
+  Qed.
+
+  Lemma remove_path_subset : forall x l p, In p (remove_path x l) -> In p l.
+  Proof.
+    intros x l p. unfold remove_path. induction l as [|y l IH]; cbn; [auto|].
+    destruct (path_eqb y x); cbn; [auto|]. intros [H|H]; auto.
+  Qed.
+
+  Lemma rm_std_dirs_cons : forall s sd rest matches, rm_std_dirs s run (sd :: rest) matches =
+    if existsb (fun p => is_prefix p sd) matches && is_link s sd then
+      match rm_dir_and_target s sd with
+      | RErr e => (s, matches, Some (Some e))
+      | ROk del =>
+          let s' := rm_trees s del in
+          if path_eqb sd run then (s', matches, Some None)
+          else rm_std_dirs s' run rest (if mem_path sd matches then remove_path sd matches else matches)
+      end
+    else rm_std_dirs s run rest matches.
+  Proof. reflexivity. Qed.
+
+  Lemma rm_std_dirs_Post : forall ds s ms s' ms' stop, Inv s ->
+    (forall d, In d ds -> In d keys) ->
+    rm_std_dirs s run (map (fun d => run ++ d) ds) ms = (s', ms', stop) ->
+    Post s s' /\ forall p, In p ms' -> In p ms.
+  Proof.
+    induction ds as [|d ds IH]; intros s ms s' ms' stop HI Hk.
+    - cbn. intros H. inversion H; subst. split; [apply Post_refl; exact HI|auto].
+    - cbn [map]. rewrite rm_std_dirs_cons.
+      destruct (existsb (fun p => is_prefix p (run ++ d)) ms && is_link s (run ++ d)).
+      2:{ intros H. eapply IH; eauto. intros d' Hd'. apply Hk. right. exact Hd'. }
+      destruct (rm_dir_and_target s (run ++ d)) as [del|er] eqn:E.
+      2:{ intros H. inversion H; subst. split; [apply Post_refl; exact HI|auto]. }
+      assert (Hr : roots_ok s del).
+      { assert (Hd : In d keys) by (apply Hk; left; reflexivity).
+        apply (rm_dir_and_target_roots s d del HI (keys_anc_Inv s d HI Hd)); [|exact E].
+        right. apply mem_path_In. rewrite stds_def. apply in_map. exact Hd. }
+      pose proof (Post_roots _ _ HI Hr) as P1. cbv zeta.
+      destruct (path_eqb (run ++ d) run).
+      + intros H. inversion H; subst. split; [exact P1|auto].
+      + intros H. destruct (IH _ _ _ _ _ (proj1 P1) (fun d' Hd' => Hk d' (or_intror Hd')) H) as [P2 Hsub].
+        split; [eapply Post_trans; eauto|].
+        intros p Hp. specialize (Hsub p Hp). destruct (mem_path (run ++ d) ms); [|exact Hsub].
+        eapply remove_path_subset; eauto.
+  Qed.
+
+  Lemma clean_using_glob_Post : forall s raw s' e, Inv s ->
+    (forall x, In x raw -> lexical run x) ->
+    clean_using_glob s run keys raw = (s', e) -> Post s s'.
+  Proof.
+    intros s raw s' e HI Hlex. unfold clean_using_glob. rewrite <- stds_def.
+    pose proof (glob_in_run_dir_ok s run stds raw) as G.
+    destruct (glob_in_run_dir s run stds raw) as [|m ms] eqn:Em.
+    - intros H. inversion H; subst. apply Post_refl. exact HI.
+    - rewrite stds_def.
+      destruct (rm_std_dirs s run (map (fun d => run ++ d) keys) (m :: ms)) as [[s1 ms1] stop] eqn:E1.
+      destruct (rm_std_dirs_Post _ _ _ _ _ _ HI (fun d Hd => Hd) E1) as [P1 Hsub].
+      destruct stop as [stop|]; intros H.
+      + inversion H; subst. exact P1.
+      + eapply Post_trans; [exact P1|]. eapply rm_each_Post; [apply P1| |exact H].
+        eapply paths_ok_Post; [exact P1|]. intros p Hp.
+        destruct (G p Hlex (Hsub p Hp)) as [_ Hx]. exact Hx.
+  Qed.
+
+  Lemma clean_patterns_Post : forall globs s s' e, Inv s ->
+    (forall raw, In raw globs -> forall x, In x raw -> lexical run x) ->
+    clean_patterns s run keys globs = (s', e) -> Post s s'.
+  Proof.
+    induction globs as [|g rest IH]; intros s s' e HI Hlex.
+    - cbn. intros H. inversion H; subst. apply Post_refl. exact HI.
+    - cbn [clean_patterns].
+      destruct (clean_using_glob s run keys g) as [s1 [e1|]] eqn:E1; intros H.
+      + inversion H; subst. eapply clean_using_glob_Post; eauto. apply Hlex. left. reflexivity.
+      + pose proof (clean_using_glob_Post _ _ _ _ HI (Hlex g (or_introl eq_refl)) E1) as P1.
+        eapply Post_trans; [exact P1|]. eapply IH; [apply P1| |exact H].
+        intros raw Hr. apply Hlex. right. exact Hr.
+  Qed.
+
+  (* the wholesale branch of clean() *)
+  Definition wholesale (s : fs) : st_res :=
+    match rm_targets s (map (fun d => run ++ d) keys) with
+    | (s', Some e) => (s', Some e)
+    | (s', None) => if mem_path [] keys then (s', None) else rm_targets s' [run]
+    end.
+
+  Lemma anc_ok_nil : forall s, anc_ok s run stds [].
+  Proof. intros s a []. Qed.
+
+  Lemma wholesale_Post : forall s s' e, Inv s -> wholesale s = (s', e) -> Post s s'.
+  Proof.
+    intros s s' e HI. unfold wholesale.
+    destruct (rm_targets s (map (fun d => run ++ d) keys)) as [s1 e1] eqn:E1.
+    assert (P1 : Post s s1).
+    { eapply rm_targets_Post; [exact HI| |exact E1]. intros d Hd. split.
+      - apply keys_anc_Inv; assumption.
+      - right. apply mem_path_In. rewrite stds_def. apply in_map. exact Hd. }
+    destruct e1 as [e1|]; [intros H; inversion H; subst; exact P1|].
+    destruct (mem_path [] keys); [intros H; inversion H; subst; exact P1|].
+    intros H. eapply Post_trans; [exact P1|].
+    apply (rm_targets_Post [[]] s1 s' e (proj1 P1)).
+    - intros d [<-|[]]. split; [apply anc_ok_nil|left; reflexivity].
+    - cbn [map]. rewrite app_nil_r. exact H.
+  Qed.
+
+  (* everything that disappeared lies inside the allowed region *)
+  Lemma Inv_contained : forall s, Inv s -> forall e, In e s0 -> ~ In e s -> inside0 (fst e).
+  Proof.
+    intros s (D & -> & He & H0 & Hin) e He0 Hn. apply Hin; [exact He0|].
+    destruct (D (fst e)) eqn:Dd; [reflexivity|]. exfalso. apply Hn. apply restrict_In. auto.
+  Qed.
 End Contain.
+
+(* ================================================================== *)
+(* 7. get_symlink_dirs provides the hypotheses of the containment proof *)
+(* ================================================================== *)
+Lemma gsd_from_spec : forall s run id ds l, get_symlink_dirs_from s run id ds = ROk l ->
+  (forall d, In d ds -> is_link s (run ++ d) = true -> In d (map fst l)) /\
+  (forall d t, In (d, t) l -> In d ds /\ is_link s (run ++ d) = true /\ realpath s (run ++ d) = Some t /\
+                              is_suffix (n_cylc_run :: id ++ d) t = true).
+Proof.
+  intros s run id. induction ds as [|d ds IH]; intros l.
+  - cbn. intros H. inversion H; subst. split; [intros d []|intros d t []].
+  - cbn [get_symlink_dirs_from].
+    destruct (is_link s (run ++ d)) eqn:L.
+    + destruct (realpath s (run ++ d)) as [t|] eqn:R; [|discriminate].
+      destruct (match lookup s t with Some KD | None => false | _ => true end); [discriminate|].
+      destruct (is_suffix (n_cylc_run :: id ++ d) t) eqn:Sf; cbn [negb]; [|discriminate].
+      destruct (get_symlink_dirs_from s run id ds) as [l'|] eqn:E; [|discriminate].
+      intros H. inversion H; subst. destruct (IH l' eq_refl) as [A B]. split.
+      * intros d' [<-|Hd'] Hl; [left; reflexivity|right; apply A; assumption].
+      * intros d' t' [Hp|Hp].
+        -- inversion Hp; subst. repeat split; auto. left. reflexivity.
+        -- destruct (B d' t' Hp) as (B1 & B2). split; [right; exact B1|exact B2].
+    + intros H. destruct (IH l H) as [A B]. split.
+      * intros d' [<-|Hd'] Hl; [congruence|apply A; assumption].
+      * intros d' t' Hp. destruct (B d' t' Hp) as (B1 & B2). split; [right; exact B1|exact B2].
+Qed.
+
+(* proper prefixes of standard dirs are standard dirs (share/cycle -> share, ...) *)
+Lemma std_dirs_prefix_closed :
+  forallb (fun d => forallb (fun a => mem_path a std_dirs) (proper_prefixes d)) std_dirs = true.
+Proof. vm_compute. reflexivity. Qed.
+
+Lemma is_suffix_nonroot : forall x suf, is_suffix (x :: suf) [] = false.
+Proof.
+  intros x suf. unfold is_suffix. cbn [rev]. destruct (rev suf ++ [x]) eqn:E; [|reflexivity].
+  destruct (rev suf); discriminate.
+Qed.
+
+Section FromGsd.
+  Variables (s0 : fs) (run id : path) (pairs : list (path * path)).
+  Hypothesis gsd : get_symlink_dirs s0 run id = ROk pairs.
+  Let keys := map fst pairs.
+  Let stds := map (fun d => run ++ d) keys.
+
+  Lemma app_inv_head_path : forall (a b c : path), a ++ b = a ++ c -> b = c.
+  Proof. intros a b c. apply app_inv_head. Qed.
+
+  Lemma gsd_keys_anc : forall d, In d keys -> anc_ok s0 run stds d.
+  Proof.
+    intros d Hd a Ha Hl. destruct (gsd_from_spec _ _ _ _ _ gsd) as [A B].
+    unfold keys in Hd. apply in_map_iff in Hd. destruct Hd as ([d' t] & <- & Hp). cbn [fst] in *.
+    destruct (B _ _ Hp) as (Hstd & _).
+    pose proof std_dirs_prefix_closed as C. rewrite forallb_forall in C.
+    specialize (C _ Hstd). rewrite forallb_forall in C. specialize (C _ Ha).
+    apply mem_In in C; [|apply path_eqb_eq].
+    apply mem_In; [apply path_eqb_eq|]. unfold stds. apply in_map. apply A; assumption.
+  Qed.
+
+  Lemma gsd_std_nonroot : forall sd, mem_path sd stds = true -> realpath s0 sd <> Some [].
+  Proof.
+    intros sd Hm E. apply mem_In in Hm; [|apply path_eqb_eq].
+    unfold stds, keys in Hm. rewrite map_map in Hm. apply in_map_iff in Hm.
+    destruct Hm as ([d t] & <- & Hp). cbn [fst] in *.
+    destruct (gsd_from_spec _ _ _ _ _ gsd) as [_ B]. destruct (B _ _ Hp) as (_ & _ & R & Sf).
+    rewrite R in E. inversion E; subst. rewrite is_suffix_nonroot in Sf. discriminate.
+  Qed.
+
+  Hypothesis run_nonroot : run <> [].
+
+  Lemma gsd_run_nonroot : realpath s0 run <> Some [].
+  Proof.
+    intros E. destruct (split_last_some run run_nonroot) as (par & c & Er).
+    assert (E' := E). rewrite Er in E'.
+    destruct (realpath_app_inv _ _ _ _ E') as (m & f' & R1 & W).
+    destruct (walk_single _ _ _ _ _ W) as [[t L]|[_ Eq]].
+    - assert (Lk : is_link s0 run = true).
+      { rewrite Er. unfold is_link. rewrite (lstat_snoc _ _ _ _ R1), L. reflexivity. }
+      destruct (gsd_from_spec _ _ _ _ _ gsd) as [A _].
+      assert (Hin : In [] (map fst pairs)).
+      { apply A; [right; right; right; right; right; left; reflexivity|rewrite app_nil_r; exact Lk]. }
+      apply (gsd_std_nonroot run); [|exact E].
+      apply mem_In; [apply path_eqb_eq|]. unfold stds, keys.
+      replace run with (run ++ []) at 1 by apply app_nil_r. apply in_map. exact Hin.
+    - destruct m; discriminate.
+  Qed.
+End FromGsd.
+
+(* ================================================================== *)
+(* 8. the core of clean(): everything before the tidy-up               *)
+(* ================================================================== *)
+Definition clean_core (s : fs) (run : path) (keys : list path) (globs : option (list (list path))) : st_res :=
+  match globs with
+  | Some gl => clean_patterns s run keys gl
+  | None => wholesale run keys s
+  end.
+
+Lemma clean_unfold : forall s cr id globs pairs,
+  get_symlink_dirs s (cr ++ id) id = ROk pairs ->
+  clean s cr id globs =
+  match clean_core s (cr ++ id) (map fst pairs) globs with
+  | (s1, Some e) => (s1, Some e)
+  | (s1, None) => tidy s1 (cr ++ id) id pairs
+  end.
+Proof.
+  intros s cr id globs pairs H. unfold clean. rewrite H. unfold clean_core, wholesale.
+  destruct globs as [gl|]; [reflexivity|].
+  destruct (rm_targets s (map (fun d => (cr ++ id) ++ d) (map fst pairs))) as [s' [e|]]; [reflexivity|].
+  destruct (mem_path [] (map fst pairs)); reflexivity.
+Qed.
+
+Lemma clean_refuses : forall s cr id globs e,
+  get_symlink_dirs s (cr ++ id) id = RErr e -> clean s cr id globs = (s, Some e).
+Proof. intros s cr id globs e H. unfold clean. rewrite H. reflexivity. Qed.
+
+Definition globs_lexical (run : path) (globs : option (list (list path))) : Prop :=
+  match globs with
+  | Some gl => forall raw, In raw gl -> forall x, In x raw -> lexical run x
+  | None => True
+  end.
+
+Theorem clean_core_contained : forall s0 run id pairs globs s1 e,
+  run <> [] ->
+  get_symlink_dirs s0 run id = ROk pairs ->
+  globs_lexical run globs ->
+  clean_core s0 run (map fst pairs) globs = (s1, e) ->
+  forall ent, In ent s0 -> ~ In ent s1 ->
+  inside0 s0 run (map (fun d => run ++ d) (map fst pairs)) (fst ent).
+Proof.
+  intros s0 run id pairs globs s1 e Hrun Hg Hlex Hc.
+  set (keys := map fst pairs). set (stds := map (fun d => run ++ d) keys).
+  assert (P : Post s0 run stds s0 s1).
+  { destruct globs as [gl|]; cbn [clean_core] in Hc.
+    - eapply (clean_patterns_Post s0 run stds Hrun
+                (gsd_std_nonroot s0 run id pairs Hg) (gsd_run_nonroot s0 run id pairs Hg Hrun)
+                keys eq_refl (gsd_keys_anc s0 run id pairs Hg)); [apply Inv_init|exact Hlex|exact Hc].
+    - eapply (wholesale_Post s0 run stds Hrun
+                (gsd_std_nonroot s0 run id pairs Hg) (gsd_run_nonroot s0 run id pairs Hg Hrun)
+                keys eq_refl (gsd_keys_anc s0 run id pairs Hg)); [apply Inv_init|exact Hc]. }
+  intros ent. apply (Inv_contained s0 run stds s1 (proj1 P)).
+Qed.
+
+(* ================================================================== *)
+(* 9. completeness: what is handed to the removal loops is gone         *)
+(* ================================================================== *)
+Definition Shrinks (s s' : fs) : Prop :=
+  exists D, s' = restrict s D /\ ext_closed D /\ D [] = false.
+
+Lemma Shrinks_refl : forall s, Shrinks s s.
+Proof.
+  intros s. exists (fun _ => false). repeat split; try (intros p q H; discriminate).
+  unfold restrict. induction s as [|e l IH]; cbn; [reflexivity|]. f_equal. exact IH.
+Qed.
+
+Lemma Shrinks_rm_tree : forall s P, P <> [] -> Shrinks s (rm_tree s P).
+Proof.
+  intros s P HP. exists (is_prefix P). repeat split; [apply ext_closed_prefix|].
+  destruct P; [congruence|reflexivity].
+Qed.
+
+Lemma Shrinks_trans : forall a b c, Shrinks a b -> Shrinks b c -> Shrinks a c.
+Proof.
+  intros a b c (D1 & -> & E1 & Z1) (D2 & -> & E2 & Z2).
+  exists (fun k => D1 k || D2 k). repeat split.
+  - apply restrict_restrict.
+  - apply ext_closed_or; assumption.
+  - rewrite Z1, Z2. reflexivity.
+Qed.
+
+(* once the directory entry of p has been removed, p never exists again,
+   whatever else is removed later *)
+Lemma lexists_gone : forall s D p P, ext_closed D -> D [] = false ->
+  phys s p = Some P -> D P = true -> lexists (restrict s D) p = false.
+Proof.
+  intros s D p P He H0 HP HD. unfold lexists.
+  destruct (lstat (restrict s D) p) as [k|] eqn:E; [|reflexivity].
+  destruct (lstat_restrict s D He H0 _ _ E) as (_ & P' & _ & HP' & HD'). congruence.
+Qed.
+
+Lemma lexists_shrinks : forall s s' p, Shrinks s s' -> lexists s p = false -> lexists s' p = false.
+Proof.
+  intros s s' p (D & -> & He & H0) H. unfold lexists in *.
+  destruct (lstat (restrict s D) p) as [k|] eqn:E; [|reflexivity].
+  destruct (lstat_restrict s D He H0 _ _ E) as (E' & _). rewrite E' in H. discriminate.
+Qed.
+
+Lemma stat_phys : forall s p k, stat s p = Some k -> exists P, phys s p = Some P.
+Proof.
+  intros s p k H. destruct p as [|x p'] using rev_ind; [exists []; reflexivity|].
+  unfold stat in H. destruct (realpath s (p' ++ [x])) as [q|] eqn:R; [|discriminate].
+  destruct (realpath_app_inv _ _ _ _ R) as (m & f' & R1 & _).
+  rewrite phys_snoc, R1. eauto.
+Qed.
+
+Lemma rm_dir_or_file_ok : forall s p del, rm_dir_or_file s p = ROk del ->
+  exists P, phys s p = Some P /\ del = [P].
+Proof.
+  intros s p del. unfold rm_dir_or_file.
+  assert (G : forall k, stat s p = Some k -> exists P, phys s p = Some P /\ opt_list (phys s p) = [P]).
+  { intros k Hk. destruct (stat_phys _ _ _ Hk) as [P HP]. exists P. rewrite HP. auto. }
+  unfold is_link, is_file, is_dir.
+  destruct (lstat s p) as [[| |t]|] eqn:L.
+  1,2,4: destruct (stat s p) as [[| |t']|] eqn:S; intros H; try discriminate; inversion H; subst; eapply G; eauto.
+  intros H. inversion H; subst. unfold lstat in L. destruct (phys s p) as [P|]; [|discriminate]. eauto.
+Qed.
+
+Lemma rm_each_complete : forall ps s s', (forall p, In p ps -> p <> []) ->
+  rm_each s ps = (s', None) -> Shrinks s s' /\ forall p, In p ps -> lexists s' p = false.
+Proof.
+  induction ps as [|p ps IH]; intros s s' Hne.
+  - intros H. inversion H; subst. split; [apply Shrinks_refl|intros p []].
+  - rewrite rm_each_cons. destruct (rm_dir_or_file s p) as [del|er] eqn:E; [|discriminate].
+    destruct (rm_dir_or_file_ok _ _ _ E) as (P & HP & ->). cbn [rm_trees fold_left]. intros H.
+    assert (HPne : P <> []) by (eapply phys_nonroot; [apply Hne; left; reflexivity|exact HP]).
+    destruct (IH _ _ (fun q Hq => Hne q (or_intror Hq)) H) as [Sh Hall].
+    pose proof (Shrinks_rm_tree s P HPne) as Sh1. split; [eapply Shrinks_trans; eauto|].
+    intros q [<-|Hq]; [|apply Hall; exact Hq].
+    eapply lexists_shrinks; [exact Sh|]. rewrite rm_tree_restrict.
+    eapply lexists_gone; [apply ext_closed_prefix| |exact HP|apply is_prefix_refl].
+    destruct P; [congruence|reflexivity].
+Qed.
+
+(* ---- the defect: with an error in the middle, later paths stay ---- *)
+(* names: 0 cylc-run, 1 log, 8 wf, 9 cat, 10 b, 11 cow, 12 zed, 13 cup, 14 scr *)
+Definition witness_fs : fs :=
+  [ ([0], KD); ([0;8], KD); ([0;8;1], KL [14;0;8;1]); ([0;8;9], KD); ([0;8;9;10], KD);
+    ([0;8;9;10;11], KF); ([0;8;12], KD); ([0;8;12;13], KF);
+    ([14], KD); ([14;0], KD); ([14;0;8], KD); ([14;0;8;1], KD) ].
+(* sorted(glob('**/c*')) = cat, cat/b/cow, zed/cup *)
+Definition witness_globs : list (list path) := [[ [0;8;9]; [0;8;9;10;11]; [0;8;12;13] ]].
+
+Lemma witness_run :
+  clean witness_fs [0] [8] (Some witness_globs) =
+  ([ ([0], KD); ([0;8], KD); ([0;8;1], KL [14;0;8;1]); ([0;8;12], KD); ([0;8;12;13], KF);
+     ([14], KD); ([14;0], KD); ([14;0;8], KD); ([14;0;8;1], KD) ], Some ENoEnt).
+Proof. vm_compute. reflexivity. Qed.
+
+Lemma witness_kept :
+  glob_in_run_dir witness_fs [0;8] [[0;8;1]] [ [0;8;9]; [0;8;9;10;11]; [0;8;12;13] ]
+  = [ [0;8;9]; [0;8;9;10;11]; [0;8;12;13] ].
+Proof. vm_compute. reflexivity. Qed.
